@@ -1957,6 +1957,11 @@ bool Parser::parseDirectDeclarator(DeclaratorSyntax*& decltor,
                         identDecltor))
                 return false;
 
+            // With a suffix, the attributes are those of the array or
+            // function declarator: a list has a single parent.
+            if (decltor != identDecltor)
+                identDecltor->attrs1_ = nullptr;
+
             SpecifierListSyntax** specList_cur = &identDecltor->attrs2_;
 
             switch (peek().kind()) {
